@@ -972,7 +972,13 @@ class Sim:
     def check_default_additions(self, reg, src_model, op):
         """Symbols this run added to the DEFAULT registry are not part of a custom registry's persisted contents: a
         registry restored / copied from custom data must not hold them (unless its source did)."""
-        leaked = sorted(s_ for s_ in self.d_new if s_ in reg.lut and s_ not in src_model)
+        unyt, lt, dims, uo, ur, us = rw._U()
+        tmpl = lt.default_unit_symbol_lut
+        # (a name the run re-added to the default registry may also be a shipped symbol - "bar" - which the documented
+        # fill-in of shipped defaults puts into a restored table with its SHIPPED meaning: that is the known C11 finding,
+        # not a leak of the default registry's state)
+        leaked = sorted(s_ for s_ in self.d_new if s_ in reg.lut and s_ not in src_model
+                        and not (s_ in tmpl and rw.entry_eq(reg.lut[s_], tmpl[s_])))
         if leaked:
             self.violate("restore-leak", ["C13"],
                          {"op": op, "symbols": leaked,
